@@ -1356,6 +1356,11 @@ def _meta_program(rng, B, leaves_batched):
         vol = volume(dims)
         data = [[rng.randint(-3, 3) for _ in range(vol)] for _ in range(B if batched else 1)]
         leaves.append({"dims": dims, "batched": batched, "data": data, "param": (not batched) and rng.random() < 0.6})
+    # a scalar divisor (never 0; 3, 7, ... make x / k and x * (1 / k) differ in the last bit): shared or one per sample
+    if rng.random() < 0.5:
+        kb = rng.random() < 0.5
+        leaves.append({"dims": [], "batched": kb, "data": [[rng.choice([3, 7, -3, 6, 5, 9, 11])] for _ in range(B if kb else 1)],
+                       "param": False, "divisor": True})
     steps = []
     seed = rng.getrandbits(60)
 
@@ -1388,6 +1393,9 @@ def _meta_program(rng, B, leaves_batched):
             nm, dims = r.choice(cur)
             f = r.choice(["negative", "abs", "relu", "addk", "mulk", "ab", "ab", "slice", "flatten", "transpose", "sum", "max",
                           "flip", "broadcast", "matmul", "pick", "concat", "permute", "reshape", "stop_gradient", "min"])
+            divisors = [names[i][0] for i, lf in enumerate(leaves) if lf.get("divisor")]
+            if divisors and r.random() < 0.3:
+                f = "divs"
             out = "t%d" % k
 
             def dim(d, i):
@@ -1395,6 +1403,11 @@ def _meta_program(rng, B, leaves_batched):
             if f in ("negative", "abs", "relu", "flatten", "stop_gradient"):
                 lines.append("let %s = %s %s" % (out, f, nm))
                 nd = [volume(dims)] if f == "flatten" and volume(dims) > 1 else ([] if f == "flatten" else dims)
+            elif f == "divs":
+                if nm in divisors:
+                    continue
+                # the same division for every sample whether the divisor is shared or comes with the batch
+                lines.append("let %s = divide %s %s" % (out, nm, divisors[0])); nd = dims
             elif f == "addk":
                 lines.append("let %s = add %s %d" % (out, nm, r.randint(-2, 2))); nd = dims
             elif f == "mulk":
@@ -1537,7 +1550,8 @@ def run_metamorphic(chk, variant="asan"):
             continue
         # gradients of batch-1 parameters: sum over the samples (only when the result carries the batch,
         # otherwise each sample program sees the whole gradient)
-        if fb == B:
+        if fb == B and not any(" = divide " in l for l in full):
+            # (with a division in the program the values are not integers and the order of the gradient sum shows)
             fg = pick(full, fi, "grad")
             sgs = [pick(s, i, "grad") for s, i in zip(samples, si)]
             for gi, g in enumerate(fg):
